@@ -238,11 +238,17 @@ pub fn build(t: &Term, w: &W) -> O {
     // cold source that emits its script from a NEW logical thread started at subscribe time (concurrent cases)
     "acold" => {
       let scripts = t.scripts.clone();
+      let t_b = t.b;
       Observable::create(move |s: Observer<'static, i64>| {
         let sc = scripts[0].clone();
         arx_vstd::rt::emit(serde_json::json!({"ev": "acsub", "src": a}).to_string());
+        let block_ms = t_b;
         arx_vstd::thread::spawn(move || {
           for e in sc.iter() {
+            if e.k == "s" {
+              arx_vstd::thread::sleep(Duration::from_millis(e.v as u64));     // a pause of the emitting thread
+              continue;
+            }
             arx_vstd::rt::emit(serde_json::json!({"ev": "emitcall", "src": a, "k": e.k, "v": e.v, "issub": s.is_subscribed() as i64}).to_string());
             match e.k.as_str() {
               "n" => s.next(e.v),
@@ -252,6 +258,9 @@ pub fn build(t: &Term, w: &W) -> O {
             arx_vstd::rt::emit(serde_json::json!({"ev": "emitret", "src": a, "k": e.k, "v": e.v}).to_string());
           }
         });
+        if block_ms > 0 {
+          arx_vstd::thread::sleep(Duration::from_millis(block_ms as u64));    // subscribe() itself returns late
+        }
       })
     }
     "subject" | "rawsubject" => {
